@@ -6,10 +6,8 @@ Gallina model in coqc; a literal oracle of the statement (harness/c10lib.py, exa
 truth only) decides violations."""
 import datetime as dt
 import json
-import math
 import multiprocessing as mp
 import os
-import sys
 from fractions import Fraction
 
 import vlib
@@ -481,8 +479,7 @@ def judge(sc, cells, obs, exp=None):
         fails.append((dict(sig0, cause="warning missing", warning=w), "warning %s is not reported" % w, sorted(exp["warn_must"])))
     if sc["period"] == "baseline" and "NoData" not in want:
         has, margin = L.extreme_truth(cells)
-        if margin is not None and margin > 1e-6 and has != ("ExtremeValues" in warn) and not (
-                sc["family"] == "hourly" and False):
+        if margin is not None and margin > 1e-6 and has != ("ExtremeValues" in warn):
             fails.append((dict(sig0, cause="extreme-value warning", warning="missing" if has else "spurious"),
                           "extreme values %s" % ("not reported" if has else "reported without any"), has))
     return fails
